@@ -39,6 +39,8 @@ def main():
     args = [a for a in sys.argv[1:] if not a.startswith("--")]
     all_checks = "--all-checks" in sys.argv
     ids = args or sorted(d.name for d in SEEDED.iterdir() if (d / "patch.diff").exists())
+    if "--table-only" in sys.argv:
+        ids = []
     props = [json.loads(l)["id"] for l in (VERIF / "properties.jsonl").read_text().splitlines() if l.strip()]
     results = {}
     resfile = SEEDED / "results.json"
@@ -87,8 +89,15 @@ def main():
         caught = [p for p, c in r["checks"].items() if c["exit"] == 1]
         first = ""
         for p in caught[:1]:
-            first = (r["checks"][p]["lines"] or [""])[0].replace("|", "\\|")[:200]
-        rows.append(f"| {sid} | {r['property']} | {meta.get('needs', '')[:120]} | {', '.join(caught) or '**missed**'} | {first} |")
+            ls = r["checks"][p]["lines"] or [""]
+            ls = [l for l in ls if l.startswith("# ")] or ls
+            first = ls[0].replace("|", "\\|")[:200]
+        verdict = ", ".join(caught) or ("not caught — " + meta["judged"] if meta.get("judged") else "**missed**")
+        rows.append(f"| {sid} | {r['property']} | {meta.get('needs', '')[:120]} | {verdict} | {first} |")
+        # keep the meta files in step with what was run
+        meta["confirmed"] = {"demo_exit_on_changed_tree": r.get("demo_exit_on_mutant"), "by": "harness/seeded_eval.py (demo run on /repo with the patch applied)"}
+        meta["ran"] = {p: c["exit"] for p, c in r["checks"].items()}
+        (SEEDED / sid / "meta.json").write_text(json.dumps(meta, indent=1, ensure_ascii=False))
     (SEEDED / "RESULTS.md").write_text("\n".join(rows) + "\n")
     return 0
 
